@@ -15,6 +15,7 @@ def run(rep, prog, tier):
     rep.rule('R01.space', 'every index, slice, product, stack and solve of the MNA assembly and of the solution read-back joins equal label spaces (index-space typing)')
     rep.rule('R01.layout', 'coefficient matrix is laid out (N+V) x (N+V), right-hand side (N+V) with N = non-reference nodes, V = ideal voltage sources')
     rep.rule('R01.sign', 'incidence sign table: B +1/-1 at node1/node2, Q -1/+1, Y diagonal +sum / off-diagonal -Y, voltage = phi(node1) - phi(node2); relations between assembly and read-back signs')
+    rep.rule('R01.solve', 'the solution is solve(A, b) of the assembled system of the object\'s own network; the all-zero fallback is reachable only through an exception of the solver or a NaN result (no scale-dependent singularity pre-check)')
     rep.rule('R01.current', 'branch current by kind: solution entry (ideal voltage source), I (ideal current source), -(I + V/Z) (linear source), V/Z (passive); power = V conj(I)')
     rep.assume('default label mappers (custom mappers are outside the quantifier)')
     rep.assume('np.linalg.solve is exact and a valid network never reaches the LinAlgError -> zeros fallback (not decided)')
@@ -25,6 +26,43 @@ def run(rep, prog, tier):
     layout(rep, interps)
     signs(rep, prog, interps)
     currents(rep, prog)
+    solve_path(rep, prog)
+
+
+def solve_path(rep, prog):
+    """the solution vector is solve(A, b) of the two assembly functions for the object's own network; the all-zero fallback is reachable only
+    through an exception raised by the solver itself or a NaN result -- no scale-dependent singularity pre-check"""
+    mm, cls = class_of(prog, SR.BP, 'NodalAnalysisBiasPointSolution')
+    mem = prog.find_member(mm, cls, '__post_init__')
+    fn = mem[1]; site = prog.site(mem[0], fn)
+    ev = new_ev(prog); ev.opaque_fns |= {(NA, 'nodal_analysis_coefficient_matrix'), (NA, 'nodal_analysis_constants_vector')}
+    ev.call_fn(fn, mem[0], [A('self')], {}, {'__parent__': None}, 1)
+    sv = ev.stores.get(('self', '_solution_vector'))
+    env = {'self': A('self')}
+    for nm in ('nodal_analysis_coefficient_matrix', 'nodal_analysis_constants_vector'):
+        env[nm] = ev.ref_of(prog.resolve(prog.mod(NA), nm))
+    leaves = [l for _, l in paths_of(sv)] if sv is not None else []
+    want = "('call', ('ext', 'numpy.linalg.solve')"
+    coef = tkey(spec(ev, "nodal_analysis_coefficient_matrix(self.network, node_mapper=self.node_mapper)", env, mm))
+    rhs = tkey(spec(ev, "nodal_analysis_constants_vector(self.network, node_mapper=self.node_mapper)", env, mm))
+    ok = None
+    solved = [l for l in leaves if isinstance(l, Poly) and l.as_atom() and l.as_atom()[0] == 'solve']
+    if solved:
+        args = solved[0].as_atom()[1:]
+        ok = len(args) == 2 and args[0] == coef and args[1] == rhs
+    rep.ob('R01.solve', 'system', ok, f'_solution_vector = {sv!r:.260}', site)
+    # fallback discipline
+    raises = [n for n in ast.walk(fn) if isinstance(n, ast.Raise)]
+    tries = [n for n in ast.walk(fn) if isinstance(n, ast.Try)]
+    guards_before = []
+    for st in fn.body:
+        if isinstance(st, ast.Try): break
+        if isinstance(st, ast.If): guards_before.append(st)
+    in_try_extra = [s for t in tries for s in t.body if not (isinstance(s, ast.Assign) and isinstance(s.value, ast.Call) and ast.unparse(s.value.func).endswith('solve'))]
+    okf = not raises and not guards_before and not in_try_extra and len(tries) == 1
+    rep.ob('R01.solve', 'fallback-only-from-solver', okf,
+           'the zero fallback is reached only through an exception of np.linalg.solve or a NaN result' if okf else
+           f'additional ways into the all-zero fallback: {[ast.unparse(x)[:70] for x in raises + guards_before + in_try_extra][:3]} -- a well-posed but badly scaled network is reported as all zeros', site)
 
 
 def _preds(space):
